@@ -26,7 +26,9 @@ ASSUMPTIONS = ["false-alarm rule for known finding C05-dna-u-strand (the model m
                "exclude U), or it is hashed in the v1 form of the sequence with U read as T (as under RNA); for a partition family: exactly the "
                "words with U rejected and the rest partitioned right, or partition by hash = brute-force orbit partition of the U->T-folded words - "
                "are judged PASS and counted as drift (class suffix /kf-repaired), not as a correspondence DIFF; when the judge fails there the "
-               "usual rules apply (Driver/C05.lean, same rule in Driver/C04.lean)",
+               "usual rules apply (Driver/C05.lean, same rule in Driver/C04.lean). The reading must be ONE for the whole run: `ureading` cases hash "
+               "DNA words containing U (several lengths) under all four flag pairs in one request and FAIL unless model / rejected / U-read-as-T "
+               "fits every reply; under a repaired reading every reply must also correspond to the model applied to the U->T-folded word",
                "BLAKE3 has no collisions among the inputs explored (hypothesis of hash_inj_partial)",
                "'sequence' in the separation clause means the normalised sequence: upper-cased (C04's case clause) and, under type RNA, with U read "
                "as T (the first statements of Hash identify the two spellings under RNA by design; Props/C05 rna_reads_u_as_t)",
@@ -83,6 +85,19 @@ def cases(seed, tier):
         yield ["partition", "aCgtUu", "2", "RNA", c, d]
     yield ["partition", "ACDEFGHIKLMNPQRSTVWY", "2", "PROTEIN", "true", "false"]
     yield ["partition", "ACDEFGHIKLMNPQRSTVWY", "2", "PROTEIN", "false", "false"]
+    # --- ONE reading of U under DNA per run (relational): DNA words containing U, each hashed under all four flag pairs in one
+    # request; words of different lengths in one case, so a reading that depends on topology, strandedness or length is mixed
+    for w in words("ACGTU", 2 if quick else 3, 1):
+        if "U" in w:
+            yield ["ureading", w]
+    for _ in range(60 if quick else 600):
+        ws = []
+        for lo, hi in ((1, 5), (6, 20), (21, 600)):
+            w = list(randword(r, r.choice(["ACGTU", "ACGTU", "ACGTURYKMSWBDHVN", "ACGTUZ"]), r.randint(lo, hi)))
+            w[r.randrange(len(w))] = "U"
+            w = "".join(w)
+            ws.append(r.choice([w, w, w.lower(), randcase(r, w)]))
+        yield ["ureading"] + ws
     # --- rejections: every single ASCII code point as a letter, first / middle / last position, each type
     for o in range(0, 128):
         ch = chr(o)
